@@ -33,13 +33,16 @@ def main():
         i = c["in"]
         o = {"expanded": False, "base_compiles": (cid + "base") not in dropped, "w_output": (cid + "base") not in dropped,
              "w_send": (cid + "send") not in dropped, "w_nonsend_body": (cid + "rc") not in dropped, "kept_async": False, "futout": "",
-             "futsend": False, "attr_on_trait": False, "attr_on_impls": False,
+             "futsend": False, "attr_on_trait": False, "attr_on_impls": False, "attr_on_item": False,
              "diag": {v: [d["message"][:110] for d in dropped.get(cid + v, [])][:2] for v in VARIANTS if (cid + v) in dropped}}
         recs = sorted(by_case.get(cid + "base", []), key=lambda r: (r["pid"], r["seq"]))
         trait = None
         impls = []
         for r in recs:
             for it in r["items"]:
+                if (it["k"] == "fn" and it["name"] == "f") or (it["k"] == "mod" and it["name"] == "m"):
+                    # the annotated item as re-emitted
+                    o["attr_on_item"] = o["attr_on_item"] or any(a["kind"] == "async_trait" for a in it.get("attrs", []))
                 subs = it["items"] if it["k"] == "mod" else [it]
                 for s in subs:
                     if s["k"] == "trait" and s["name"] == "T":
